@@ -9,6 +9,7 @@ def run(ctx):
     ctx.rule("R-LAMP", "lamp bit pairs, code table and its inverse decision tree", floor=15)
     ctx.rule("R-REG-KEY", "every deregistration names the callable that was registered", floor=6)
     ctx.rule("R-DM1-CYCLE", "the DM1 timer callback sends through the CA and keeps itself registered", floor=1)
+    ctx.rule("R-FRESH-PAYLOAD", "the DM1 payload handed to the transport is a new list each cycle", floor=1)
     D.dtc_layout(ctx)
     D.dm1_layout(ctx)
     D.lamps(ctx)
